@@ -694,6 +694,55 @@ pub fn run(args: &crate::Args) {
             }
         }
     }
+    fn count_nodes(ns: &[Node], stats: &mut Counter) {
+        for n in ns {
+            match n {
+                Node::If { body, els, cond } => {
+                    stats.hit(if matches!(cond, Cond::Let(..)) { "construct.if_let" } else { "construct.if" });
+                    count_nodes(body, stats);
+                    match els {
+                        Else::None => {}
+                        Else::Block(b) => {
+                            stats.hit("construct.else");
+                            count_nodes(b, stats)
+                        }
+                        Else::ElseIf(n) => {
+                            stats.hit("construct.else_if");
+                            count_nodes(std::slice::from_ref(&**n), stats)
+                        }
+                    }
+                }
+                Node::For { body, .. } => {
+                    stats.hit("construct.for");
+                    count_nodes(body, stats)
+                }
+                Node::Match { arms, .. } => {
+                    stats.hit("construct.match");
+                    for (_, b) in arms {
+                        count_nodes(b, stats)
+                    }
+                }
+                Node::Call { args, .. } => {
+                    stats.hit("construct.call");
+                    for a in args {
+                        if let Arg::Body(b) = a {
+                            stats.hit(if b.is_empty() { "construct.block_empty" } else { "construct.block" });
+                            count_nodes(b, stats)
+                        }
+                    }
+                }
+                Node::Expr(_) | Node::Paren(_) => stats.hit("construct.expr"),
+                Node::Text(_) => stats.hit("construct.text"),
+                Node::Comment(_) => stats.hit("construct.comment"),
+                _ => stats.hit("construct.escape"),
+            }
+        }
+    }
+    for p in &progs {
+        for t in &p.tpls {
+            count_nodes(&t.body, &mut stats);
+        }
+    }
     for p in &progs {
         stats.add("templates", p.tpls.len() as u64);
         for t in &p.tpls {
